@@ -495,6 +495,10 @@ class Directory(object):
     def unregister_computation(self, computation: ComputationName,
                                agent: AgentName=None):
         try:
+            if agent is not None and self._computations_data[computation] != agent:
+                # Stale un-registration: the computation has been registered
+                # by another agent in the meantime.
+                return
             self._computations_data.pop(computation)
             self.discovery.unregister_computation(computation, publish=False)
         except (KeyError, UnknownComputation):
